@@ -183,8 +183,30 @@ def audit_theorems(pid, names, allowed_axioms):
     return discharged, details, failures
 
 
-def proofs_part(pid, clean=False):
-    """(A): make + textual scan + assumption audit.  Returns dict."""
+def coqchk_all():
+    """thorough tier: re-check every compiled file of the development (and everything it depends on) with the independent
+    checker and list the axioms of the whole context; cached per content of coq/theories."""
+    h = hashlib.sha1()
+    for f in coq_sources():
+        h.update(open(f, "rb").read())
+    key = h.hexdigest()
+    cache = os.path.join(WORK, "coqchk-%s.json" % key[:16])
+    if os.path.exists(cache):
+        return json.load(open(cache))
+    mods = ["Cqos." + os.path.basename(f)[:-2] for f in coq_sources() if os.path.basename(f).startswith("Properties")]
+    t0 = time.time()
+    rc, out = sh(["coqchk", "-silent", "-o", "-Q", "theories", "Cqos"] + mods, cwd=COQ, timeout=7200)
+    axioms = []
+    if "* Axioms:" in out:
+        block = out.split("* Axioms:")[1].split("* Constants")[0]
+        axioms = [l.strip() for l in block.strip().split("\n") if l.strip() and l.strip() != "<none>"]
+    res = {"ok": rc == 0, "axioms": axioms, "wall_s": round(time.time() - t0, 1), "tail": out[-1200:]}
+    json.dump(res, open(cache, "w"))
+    return res
+
+
+def proofs_part(pid, clean=False, thorough=False):
+    """(A): make + textual scan + assumption audit (+ coqchk in the thorough tier).  Returns dict."""
     t0 = time.time()
     ob = obligations_for(pid)
     ok, out = coq_make(clean=clean)
@@ -198,8 +220,16 @@ def proofs_part(pid, clean=False):
     if ok:
         discharged, details, f2 = audit_theorems(pid, ob["theorems"], set(ob.get("allowed_axioms", [])))
         failures += f2
+    chk = None
+    if ok and thorough:
+        chk = coqchk_all()
+        if not chk["ok"]:
+            failures.append("coqchk rejects the compiled development: " + chk["tail"][-600:])
+        extra = [a for a in chk["axioms"] if a.replace("Coq.Reals.", "").replace("Coq.Logic.", "") not in STD_AXIOMS]
+        if extra:
+            failures.append("coqchk reports axioms outside the allow-list: " + ", ".join(extra))
     return {"obligations": len(ob["theorems"]), "discharged": discharged, "theorems": details,
-            "failures": failures, "wall_s": round(time.time() - t0, 2), "partial": ob.get("partial", [])}
+            "failures": failures, "wall_s": round(time.time() - t0, 2), "partial": ob.get("partial", []), "coqchk": chk}
 
 
 # --------------------------------------------------------------------------------------------- model driver
@@ -536,8 +566,7 @@ def run_property(pid, suites, tier, seed, assumptions, extra_obligation_check=No
     """The common decision procedure (D).  suites: list[Suite]."""
     t_start = time.time()
     rng_master = random.Random(seed * 1000003 + int(pid[1:]))
-    clean = False
-    proofs = proofs_part(pid, clean=clean)
+    proofs = proofs_part(pid, clean=False, thorough=(tier == "thorough"))
     ok_drv, msg = build_model_driver()
     if not ok_drv:
         proofs["failures"].append("model extraction/driver build failed: " + msg)
@@ -614,7 +643,7 @@ def run_property(pid, suites, tier, seed, assumptions, extra_obligation_check=No
         "obligations": proofs["obligations"], "discharged": proofs["discharged"],
         "checker_cmd": "make -C coq (coqc 8.16.1) + generated Audit.v: Check/Print Assumptions for each theorem of coq/obligations.json[%s]" % pid,
         "trusted_base": TRUSTED_BASE,
-        "theorems": proofs["theorems"], "partial_theorems": proofs.get("partial", []),
+        "theorems": proofs["theorems"], "partial_theorems": proofs.get("partial", []), "coqchk": proofs.get("coqchk"),
         "proof_failures": proofs["failures"],
         "evaluations": evaluations, "distinct_nontrivial": len(distinct),
         "rule": "; ".join("%s: %s" % (s.name, s.rule) for s in suites),
